@@ -27,6 +27,15 @@ func planFor(id string, thorough bool) *plan {
 	switch id {
 	case "C19":
 		p := &plan{scenarios: c19Scenarios(thorough), outcome: regOutcome, bounds: []int{-1, 2}, caps: []int64{30000, 300000}, shardBudget: 4000000}
+		d := 3
+		if thorough {
+			d = 4
+		}
+		p.pre = func(res *shardResult, shard, n int) {
+			if shard == 0 {
+				sequentialRegistryModel(res, d)
+			}
+		}
 		if thorough {
 			p.bounds, p.caps = []int{-1, 3, 2}, []int64{200000, 3000000, 2000000}
 			p.shardBudget = 40000000
